@@ -10,12 +10,36 @@ include!(concat!(env!("OUT_DIR"), "/ops_all.rs"));
 
 use std::io::{BufRead, BufWriter, Write};
 use std::panic;
+use std::sync::atomic::{AtomicU64, Ordering};
+use std::time::{Duration, Instant};
+
+/// Milliseconds (since process start) at which the current case began; 0 = idle.
+static CASE_START_MS: AtomicU64 = AtomicU64::new(0);
+
+/// Per-case watchdog: a case that runs longer than BN_CASE_TIMEOUT seconds (default 60) ends the
+/// process with status 97; the orchestrator records `hang` for the announced case and restarts the
+/// worker on the rest of its shard.
+fn start_watchdog(t0: Instant) {
+    let limit_ms: u64 = std::env::var("BN_CASE_TIMEOUT").ok().and_then(|s| s.parse::<u64>().ok()).unwrap_or(60) * 1000;
+    std::thread::spawn(move || loop {
+        std::thread::sleep(Duration::from_millis(200));
+        let st = CASE_START_MS.load(Ordering::Relaxed);
+        if st != 0 {
+            let now = t0.elapsed().as_millis() as u64;
+            if now > st + limit_ms {
+                std::process::exit(97);
+            }
+        }
+    });
+}
 
 fn main() {
     let args: Vec<String> = std::env::args().collect();
     let cases = std::fs::File::open(&args[1]).expect("cases");
     let mut out = BufWriter::new(std::fs::File::create(&args[2]).expect("out"));
     panic::set_hook(Box::new(|_| {}));
+    let t0 = Instant::now();
+    start_watchdog(t0);
     for line in std::io::BufReader::new(cases).lines() {
         let line = line.unwrap();
         if line.is_empty() || line.starts_with('#') {
@@ -30,12 +54,14 @@ fn main() {
         writeln!(out, "{}\tB", id).unwrap();
         out.flush().unwrap();
         io::probes_reset();
+        CASE_START_MS.store(t0.elapsed().as_millis() as u64 + 1, Ordering::Relaxed);
         let a_owned: Vec<String> = a.iter().map(|s| s.to_string()).collect();
         let op_owned = op.to_string();
         let r = panic::catch_unwind(move || {
             let refs: Vec<&str> = a_owned.iter().map(|s| s.as_str()).collect();
             dispatch(&op_owned, &refs)
         });
+        CASE_START_MS.store(0, Ordering::Relaxed);
         let res = match r {
             Ok(Some(s)) => s,
             Ok(None) => "unsupported".to_string(),
